@@ -139,6 +139,9 @@ func (c12) Gen(rng *rand.Rand, tier string, k int) *Case {
 		name := string(rune('A' + i))
 		if many {
 			name = fmt.Sprintf("N%03d", i)
+		} else if rng.Intn(6) == 0 {
+			// tickers with share classes and suffixes: BRK.B, RDS.A, X.y.z, a trailing "-", an inner space
+			name = []string{"BRK.B", "RDS.A", "X.y.z", "T-", "A B"}[i%5]
 		}
 		a := AssetSpec{Name: name, SrcFrom: rng.Intn(6), SrcN: rng.Intn(8), TgtFrom: rng.Intn(6), TgtN: rng.Intn(6), Seed: rng.Int63n(1 << 30)}
 		switch rng.Intn(8) {
